@@ -288,12 +288,20 @@ func runC13MailboxDeadPeer(c *mon.Case) {
 	cl := eng.NewMboxParty(eng.NewKey(rng), nil, pass, nil, 0, 2)
 	sid, _ := cl.CD.SID()
 	c2s, s2c := sidHex(mailbox.GetSID(sid, false)), sidHex(mailbox.GetSID(sid, true))
+	var sidMu sync.Mutex
+	// How many times the parties close and reconnect before the test: the
+	// first connection is the pairing one, the second the first at the
+	// key-derived rendezvous, the third a refreshed one (same rendezvous).
+	reconnects := (c.Idx / 100) % 3
 	serverDies := (c.Idx/100)%2 == 0
 	// a third of the cases: nobody dies, but the uploader's sends fail at
 	// the relay for 14 s (longer than ping + pong), then work again
 	outage := (c.Idx/200)%3 == 0
 	var dead, sendsFail atomic.Bool
 	relay.Fault = func(op sim.RelayOp) sim.RelayAction {
+		sidMu.Lock()
+		c2s, s2c := c2s, s2c
+		sidMu.Unlock()
 		if dead.Load() && op.Kind == "send" && ((serverDies && op.Stream == s2c) || (!serverDies && op.Stream == c2s)) {
 			return sim.RelayAction{Drop: true}
 		}
@@ -321,6 +329,40 @@ func runC13MailboxDeadPeer(c *mon.Case) {
 			return
 		}
 	}
+	for round := 0; round < reconnects; round++ {
+		// a short exchange so that the handshake of this connection is
+		// over on both sides, then both give the connection up
+		if _, err := cc.Write([]byte("x")); err == nil {
+			_, _ = sc.Read(make([]byte, 8))
+		}
+		_ = cc.Close()
+		_ = sc.Close()
+		sc, cc = nil, nil
+		deadline := time.After(90 * time.Second)
+		for sc == nil || cc == nil {
+			select {
+			case sc = <-m.SConns:
+			case cc = <-m.CConns:
+			case <-deadline:
+				c.Shard.Inconc(fmt.Sprintf("mailbox dead-peer session: no connection within 90 s after reconnect %d", round+1))
+				return
+			}
+		}
+	}
+	if reconnects > 0 {
+		nsid, err := cl.CD.SID()
+		if err != nil {
+			c.Shard.Inconc("mailbox dead-peer session: " + err.Error())
+			return
+		}
+		sidMu.Lock()
+		c2s, s2c = sidHex(mailbox.GetSID(nsid, false)), sidHex(mailbox.GetSID(nsid, true))
+		sidMu.Unlock()
+		c.Shard.Count("mailbox_cases_on_a_reconnected_session", 1)
+	}
+	sidMu.Lock()
+	c2sNow, s2cNow := c2s, s2c
+	sidMu.Unlock()
 	up, down := cc, sc // the uploader and the party that dies
 	if !serverDies {
 		up, down = sc, cc
@@ -381,12 +423,12 @@ func runC13MailboxDeadPeer(c *mon.Case) {
 	}
 	dead.Store(true)
 	if serverDies {
-		relay.FreezeReads(c2s, true)
+		relay.FreezeReads(c2sNow, true)
 	} else {
-		relay.FreezeReads(s2c, true)
+		relay.FreezeReads(s2cNow, true)
 	}
 	bound := 7*time.Second + 3*time.Second + 15*time.Second
-	rep := map[string]any{"kind": "M", "uploader": who, "relay_capacity": relay.Cap, "bound": bound.String()}
+	rep := map[string]any{"kind": "M", "uploader": who, "relay_capacity": relay.Cap, "bound": bound.String(), "reconnects_before": reconnects}
 	select {
 	case <-readDone:
 		c.Shard.Max("max_detection_mailbox_backpressure_ms", time.Since(t0).Milliseconds())
